@@ -38,19 +38,19 @@ PROPS = {
         "streams": ["dec"],
         "timeout": 3000,
         "required_theorems": ["decode_no_panic", "decodeObject_no_panic", "decode_no_panic_versions", "decode_alloc",
-                              "decodeObject_alloc", "decode_alloc_partial"],
+                              "decodeObject_alloc", "decode_alloc_partial", "C18_alloc_full_false"],
         "trusted": [
             "hand model Model/Enc.lean of the repaired decoder; every slice expression, `data[0]` in toVarint and (before the repair) every unchecked type assertion and make() is a panic branch; tied by stream `dec` (all truncations, sampled single/double-byte corruptions, arbitrary bytes: decoded object text / error / panic compared with the implementation)",
             "gob is a parameter assumed total, not un-reading input (GobRest) and allocation-bounded (GobAlloc)",
             "the version-1 instruction converter (encoder/v1.go, property C11) is the parameter `conv`, assumed not to panic (C11 conv_total)",
         ],
         "assumptions": [
-            "allocation: decode_alloc bounds every single allocation by a*|bs|+b; the *sum* is not linear (each nesting level re-buffers its payload): C18_alloc_full is stated, not proved, and reported as known finding C18:alloc-nesting",
+            "allocation: decode_alloc bounds every single allocation by a*|bs|+b; the *sum* is not linear (each nesting level re-buffers its payload): C18_alloc_full (sum <= 64|bs|+64KiB) is refuted in Lean by a concrete witness (C18_alloc_full_false) and reported as known finding C18:alloc-nesting",
             "Go stack exhaustion on extreme nesting and the allocations of encoding/gob itself are outside the model",
         ],
         "partial": [
             {"theorem": "decode_alloc_partial", "full": "C18_alloc_full",
-             "missing": "total (summed) allocation linear in the input: false for nested containers (quadratic in nesting depth), see known finding C18:alloc-nesting"},
+             "missing": "total (summed) allocation linear in the input: refuted (C18_alloc_full_false: arrays nested 2001 deep, <= 48033 bytes, allocate >= 10009002 bytes in the model), known finding C18:alloc-nesting"},
         ],
     },
     "C15": {
